@@ -9,11 +9,15 @@ from ..terms import Env, FALSE, Interp
 
 
 def summarise(prog: Program, module: Module, stmts, inputs: list[str], outputs: list[str], no_inline=None,
-              extra_env: dict | None = None):
+              extra_env: dict | None = None, reference=False):
     """Returns (dict output name -> term, interp)."""
     it = Interp(prog, no_inline=no_inline)
     it.break_as_flag = True
-    env = Env()
+    if reference:
+        from ..refs import prelude
+        env = Env(prelude(prog))
+    else:
+        env = Env()
     for n in inputs:
         env.set(n, ("sym", n.upper()))
     for k, v in (extra_env or {}).items():
@@ -32,7 +36,7 @@ def summarise(prog: Program, module: Module, stmts, inputs: list[str], outputs: 
 
 def ref_summary(prog, module, src: str, inputs, outputs, no_inline=None):
     body = ast.parse(src).body
-    return summarise(prog, module, body, inputs, outputs, no_inline)
+    return summarise(prog, module, body, inputs, outputs, no_inline, reference=True)
 
 
 def top_loops(fn):
